@@ -449,7 +449,7 @@ func callSSA(i *interpreter, caller *frame, callpos token.Pos, fn *ssa.Function,
 	}
 	// harness-supplied replacement at one of yardl's own I/O seams: verifRepl_<name> in the same package
 	if fn.Pkg != nil && fn.Signature.Recv() == nil && fn.Parent() == nil && !strings.HasPrefix(fn.Name(), "verif") {
-		if r := fn.Pkg.Func("verifRepl_" + fn.Name()); r != nil {
+		if r := fn.Pkg.Func("verifRepl_" + fn.Name()); r != nil && i.ex.replOn[fn.Name()] {
 			i.ex.replaced[fn.String()] = true
 			fn = r
 			fr.fn = r
